@@ -233,7 +233,7 @@ Theorem C14_header_window_clause_refuted :
   req_in_grammar s = true /\ pathlike_free s = true
   /\ accepted_unchecked s (bs "db2") Transformed
        (bs "SELECT * FROM read_parquet('/R/db2/secret/**/*.parquet', union_by_name=true) WINDOW w1 AS (ORDER BY id), secret AS (ORDER BY id)")
-  /\ gate_gen {| fx_with := true; fx_dedup := false; fx_scanner := false; fx_denylist := false; fx_noraw := false; fx_bsq := false; fx_single := false; fx_cteq := false |} s (bs "db2")
+  /\ gate_gen {| fx_with := true; fx_dedup := false; fx_scanner := false; fx_denylist := false; fx_noraw := false; fx_bsq := false; fx_single := false; fx_cteq := false; fx_quotes := false |} s (bs "db2")
      = OExec [] Transformed s.
 Proof. vm_compute. repeat split. Qed.
 
@@ -256,6 +256,23 @@ Theorem C14_case_dedup_refuted :
   /\ covers_exact [(bs "db1", bs "cpu")] (bs "db1", bs "CPU") = false
   /\ covers [(bs "db1", bs "cpu")] (bs "db1", bs "CPU") = true.
 Proof. vm_compute. repeat split. eexists. repeat split. Qed.
+
+(* (k) quote-scanning disagreements that survived the first round of repairs (the code at 6c73591, i.e. every repair
+   but fx_quotes): a backtick inside a double-quoted alias is mapped to a double quote for the validator only ... *)
+Definition fx_before_quotes : fixset :=
+  {| fx_with := true; fx_dedup := true; fx_scanner := true; fx_denylist := true; fx_noraw := true; fx_bsq := true;
+     fx_single := true; fx_cteq := true; fx_quotes := false |}.
+Theorem C14_backtick_in_quoted_alias_refuted :
+  let s := bs ("SELECT 1 AS ""a`b"", p.v FROM db1.cpu c, """ ++ canary ++ """ p") in
+  gate_gen fx_before_quotes s [] = OExec [(bs "db1", bs "cpu")] Transformed
+       (bs ("SELECT 1 AS ""a`b"", p.v FROM read_parquet('/R/db1/cpu/**/*.parquet', union_by_name=true) c, """ ++ canary ++ """ p"))
+  /\ harmless (gate_gen fx_all s []) = true.
+Proof. vm_compute. split; reflexivity. Qed.
+(* ... and after an escaped quote in an E-string the masker takes the closing quote for a doubled one *)
+Theorem C14_estring_escaped_quote_refuted :
+  let s := bs ("SELECT E'a\'' AS a, p.v FROM """ ++ canary ++ """ p WHERE 'x' = 'x'") in
+  gate_gen fx_before_quotes s [] = OExec [] Transformed s /\ harmless (gate_gen fx_all s []) = true.
+Proof. vm_compute. split; reflexivity. Qed.
 
 (* ==================================================================================== *)
 (* C16 (rewriting)                                                                        *)
